@@ -23,6 +23,9 @@ def sh(cmd, cwd, timeout=1800, env=None):
     return p.returncode, p.stdout
 
 
+RACE = ""
+
+
 def run_demo(wt, k):
     """Returns (rc, output, how)."""
     d = os.path.join(wt, "OUT", str(k))
@@ -33,7 +36,7 @@ def run_demo(wt, k):
     # demos written as external tests living in OUT/k
     if not pkgname.endswith("_test") and pkgname not in ("main",) and "zrnt/eth2" in src and "OUT" not in src:
         pass
-    rc, out = sh("go test -mod=mod -vet=off -count=1 -tags mutdemo,verif ./OUT/%s/ 2>&1" % k, wt, timeout=1200)
+    rc, out = sh("go test -mod=mod -vet=off -count=1" + RACE + " -tags mutdemo,verif ./OUT/%s/ 2>&1" % k, wt, timeout=1200)
     if "[build failed]" in out or "main module" in out or "does not contain package" in out or "no Go files" in out or "no test files" in out or "cannot find package" in out or "build constraints exclude" in out or "is not in std" in out or "directory prefix" in out:
         # copy next to the package it names in its header comment, default eth2/beacon
         m = re.search(r"(eth2/[\w/]+)/zz_\w*test\.go", src)
@@ -41,7 +44,7 @@ def run_demo(wt, k):
         tgt = os.path.join(wt, target_dir, "zz_demo%s_test.go" % k)
         shutil.copyfile(demo, tgt)
         try:
-            rc, out = sh("go test -mod=mod -vet=off -count=1 -tags mutdemo,verif -run 'Demo' ./%s/ 2>&1" % target_dir, wt, timeout=1200)
+            rc, out = sh("go test -mod=mod -vet=off -count=1" + RACE + " -tags mutdemo,verif -run 'Demo' ./%s/ 2>&1" % target_dir, wt, timeout=1200)
         finally:
             os.remove(tgt)
         return rc, out, "copied to " + target_dir
@@ -55,7 +58,11 @@ def main():
     ap.add_argument("k")
     ap.add_argument("--checks", default=None)
     ap.add_argument("--skip-suite", action="store_true")
+    ap.add_argument("--race", action="store_true", help="run the demonstration under the race detector")
     a = ap.parse_args()
+    global RACE
+    if a.race:
+        RACE = " -race"
     wt, k = a.worktree, a.k
     d = os.path.join(wt, "OUT", str(k))
     patch = os.path.join(d, "patch.diff")
